@@ -1835,8 +1835,8 @@ def _run_rsvd(case):
     if k is None and case["k_start"] == 1 and case["q"] <= 1:
         # one-column adaptive blocks re-use one start vector: a single-vector Krylov recurrence whose new direction shrinks
         # geometrically; without power iterations ("q: increase for accuracy") digits are lost (observed <= 6e-6 at q=0,
-        # 4e-15 at q=2, 1e-14 for k_start>=2) -> exactness is not claimed for this class, only 1e-3
-        tol = ttol = 1e-3
+        # 4e-15 at q=2, 1e-14 for k_start>=2) -> exactness is not claimed for this class, only 1e-2 (thorough tier max 6e-5)
+        tol = ttol = 1e-2
     full = np.zeros(max(sv.size, r))
     full[:r] = sv_true
     # interlacing: singular values of a projection never exceed the true ones
@@ -1935,7 +1935,7 @@ def _run_estimate_rank(case):
             # the returned right vectors span the row space: A (1 - V V+) == 0
             Mc = M.astype(np.complex128)
             err = fro(Mc - (Mc @ VH.conj().T) @ VH) / fro(Mc)
-            rtol = 1e-3 if (ks == 1 and case["q"] <= 1) else INV64  # single-vector Krylov class, see _run_rsvd
+            rtol = 1e-2 if (ks == 1 and case["q"] <= 1) else INV64  # single-vector Krylov class, see _run_rsvd
             if not err <= rtol:
                 raise Violation("rowspace", err=err, **info)
     return {"nt": True, "cls": ["rank-true=%d" % (rank - r) if r <= kmax else "capped", "vecs=" + str(case["get_vectors"]),
